@@ -160,7 +160,7 @@ MODE_OPS = ["So", "Si", "Gzd4", "G1d4", "Sm", "Rm", "DecsetMisc", "DecrstMisc", 
 SMALL_OPT = ["origin mode with a top margin", "start below the region", "start above the region"]
 
 
-def nocell(op, cols, rows, props, tabs_k="SYM", alt=2, sb=1, suffix="", mem=5, optional=(), geo=None):
+def nocell(op, cols, rows, props, tabs_k="SYM", alt=2, sb=1, suffix="", mem=8, optional=(), geo=None):
     kw = dict(sb=sb, alt=alt, tabs_k=tabs_k, limit="Some(1)")
     if geo:
         kw.update(crow=geo[0], top=geo[1], bottom=geo[2])
@@ -261,7 +261,7 @@ for op in ("Su", "Il", "Dl", "Lf"):
     scroll(op, 2, 2, 0, 0, 1, {"C06": T, "C01": T}, sb=2, limit="None", alt=0, suffix="_sb2")
 
 # ----------------------------------------------------------------------------- terminal: erase / edit / print / rep
-def erase(op, cols, rows, props, sb=1, alt=2, mem=6, suffix=""):
+def erase(op, cols, rows, props, sb=1, alt=2, mem=10, suffix=""):
     kw = dict(sb=sb, alt=alt, limit="Some(1)")
     opt = ["a cell of another row is erased"] if op in ("El0", "El1", "El2", "Ech") else []
     if rows == 1:
@@ -283,7 +283,7 @@ for op in ("Ed0", "Ed1", "Ed2", "El0", "El1", "El2", "Ech"):
     erase(op, 4, 2, {"C07": T, "C15": T}, sb=0, alt=0)
 
 
-def edit(op, cols, rows, props, sb=1, alt=2, mem=6, crow="SYM", ccol="SYM", suffix=""):
+def edit(op, cols, rows, props, sb=1, alt=2, mem=8, crow="SYM", ccol="SYM", suffix=""):
     kw = dict(sb=sb, alt=alt, limit="Some(1)", crow=crow, ccol=ccol)
     inst("ed_%s__%dx%d%s" % (op.lower(), cols, rows, suffix), "terminal", "t_edit(%s, EditOp::%s)" % (tcfg(cols, rows, **kw), op),
          max(cols, rows + sb, 13) + 3, props, mem=mem, timeout=1500, stubs=[ROTATE_STUB] if op != "Decaln" else [],
